@@ -79,7 +79,7 @@ def added_members(alg):
     return set()
 
 
-def one(env, alg_i, enc_i, curve_i, ser, has_zip, pt, aad, apu, hdr_where, keyset, pick, n_rec=1, alg2_i=None):
+def one(env, alg_i, enc_i, curve_i, ser, has_zip, pt, aad, apu, hdr_where, keyset, pick, n_rec=1, alg2_i=None, kid_where=None):
     """encrypt then decrypt inside env; -> (outcome, info)"""
     alg = ALGS[alg_i]
     encname, ivbits, cekbits, kind = ENCS[enc_i]
@@ -96,12 +96,15 @@ def one(env, alg_i, enc_i, curve_i, ser, has_zip, pt, aad, apu, hdr_where, keyse
     choice = Choice(pick)
     oct_alg = alg == "dir" or alg.startswith("PBES2") or (alg[0] == "A" and alg[1:4].isdigit())
     others = [ice.fake_key("RSA" if oct_alg else "oct16", kid="zz", private=True)]
-    kset = KeySet([key, key_for(alg, cekbits, curve_i, "r2")] + others) if keyset else None
+    key2 = key_for(alg, cekbits, curve_i, "r2")
+    kset = KeySet([key, key2] + others) if keyset else None
     given = {}
     with env.installed(patches() + [(random, "choice", choice)]):
         try:
             if ser == 0:
                 hdr = {"alg": alg, **prot, **extra}
+                if kid_where is not None:
+                    hdr["kid"] = "r2"
                 given = ice.jcopy(hdr)
                 tok = jwe.encrypt_compact(hdr, pt, kset or key, registry=reg, sender_key=sender)
             else:
@@ -109,6 +112,8 @@ def one(env, alg_i, enc_i, curve_i, ser, has_zip, pt, aad, apu, hdr_where, keyse
                 p, u, rh = dict(prot), {}, {}
                 [p, u, rh][hdr_where]["alg"] = alg
                 [p, u, rh][hdr_where].update(extra)
+                if kid_where is not None:
+                    [p, u, rh][kid_where]["kid"] = "r2"          # an explicit kid: protected / shared unprotected / per-recipient header
                 given = {"protected": ice.jcopy(p), "unprotected": ice.jcopy(u), "header": ice.jcopy(rh)}
                 obj = cls(p, pt, u or None, aad)
                 obj.add_recipient(rh or None, None if keyset else key)
@@ -141,7 +146,7 @@ def one(env, alg_i, enc_i, curve_i, ser, has_zip, pt, aad, apu, hdr_where, keyse
             raise
         except Exception as e:  # noqa
             return ("decrypt_failed", e), dict(alg=alg, enc=encname, kind=kind, tok=tok)
-    return ("ok", out), dict(alg=alg, enc=encname, kind=kind, tok=tok, given=given, key=key, choice=choice, ndraws_enc=ndraws_enc,
+    return ("ok", out), dict(alg=alg, enc=encname, kind=kind, tok=tok, given=given, key=key if kid_where is None else key2, choice=choice, ndraws_enc=ndraws_enc,
                              ivbits=ivbits, cekbits=cekbits)
 
 
@@ -446,6 +451,31 @@ def two_recipients(alg_i: int, alg2_i: int, enc_i: int, pt: bytes, aad: Optional
     return len(gens) == n_ecdh and len({g["value"] for g in gens}) == n_ecdh
 
 
+def explicit_kid(alg_i: int, enc_i: int, curve_i: int, ser: int, kid_where: int, hdr_where: int) -> bool:
+    """
+    PRE: 0 <= alg_i < 21 and enc_i in (0, 3) and curve_i in CURVE_SET and 0 <= ser <= 2 and 0 <= kid_where <= 2 and 0 <= hdr_where <= 2
+    PRE: ser != 0 or (kid_where == 0 and hdr_where == 0)
+    POST: _
+    """
+    # C14: a kid in the protected, shared unprotected or per-recipient header names the key of the set that is used to encrypt AND to
+    # decrypt -- exactly that key reaches the key-management primitive, no key is picked at random
+    rt.tick()
+    env = ice.Env(False)
+    pt = b"kid-plaintext"
+    (st, out), info = one(env, alg_i, enc_i, curve_i, ser, False, pt, None, False, hdr_where, True, 0, kid_where=kid_where)
+    fb = forbidden(info["alg"], info["kind"], 1)
+    if fb is not None:
+        return st == "encrypt_failed" and isinstance(out, fb)
+    if st != "ok" or out.plaintext != pt:
+        return rt.why("explicit_kid#roundtrip")
+    if info["choice"].calls:
+        return rt.why("explicit_kid#random")
+    merged = out.recipients[0].headers() if ser else out.protected
+    if merged.get("kid") != "r2":
+        return rt.why("explicit_kid#kid")
+    return conformance(env, info, ser, pt, None, False, False)
+
+
 def shared_alg_recipients(alg_i: int, enc_i: int, curve_i: int, n: int, which: int) -> bool:
     """
     PRE: 0 <= alg_i < 17 and enc_i in (0, 3) and curve_i in CURVE_SET and 2 <= n <= 3 and 0 <= which < n
@@ -479,6 +509,55 @@ def shared_alg_recipients(alg_i: int, enc_i: int, curve_i: int, n: int, which: i
         except Exception:  # noqa
             return rt.why("shared_alg_recipients#decrypt")
     return out.plaintext == pt
+
+
+def replay_explicit_kid(alg_i, enc_i, curve_i, ser, kid_where, hdr_where):
+    import warnings
+    warnings.simplefilter("ignore")
+    from vlib import refjose as R
+    from joserfc.jwk import JWKRegistry
+    alg = ALGS[alg_i]
+    encname, ivbits, cekbits, kind = ENCS[enc_i]
+    if alg.startswith("ECDH-1PU"):
+        return {"violated": None, "detail": "no concrete replay with a sender key"}
+    jks = []
+    for i in range(2):
+        if alg.startswith("RSA"):
+            j = R.test_key("RSA2048") if i == 0 else R.test_key("RSA2049")
+        elif alg.startswith("ECDH"):
+            j = R.test_key(CURVES[curve_i]) if i == 0 else R._ephemeral(CURVES[curve_i])
+        elif alg.startswith("PBES2"):
+            j = {"kty": "oct", "k": R.b64e(b"password-%d-password-xx" % i)}
+        else:
+            nbytes = cekbits // 8 if alg == "dir" else int(alg[1:4]) // 8
+            j = {"kty": "oct", "k": R.b64e(bytes((i * 17 + b) % 256 for b in range(nbytes)))}
+        jks.append(dict(j, kid="r%d" % (i + 1)))
+    other = dict(R.test_key("oct16" if jks[0]["kty"] != "oct" else "P-256"), kid="zz")
+    keys = [JWKRegistry.import_key(j) for j in jks + [other]]
+    reg = JWERegistry(algorithms=ALL_NAMES)
+    pt = b"kid-plaintext"
+    try:
+        if ser == 0:
+            tok = jwe.encrypt_compact({"alg": alg, "enc": encname, "kid": "r2"}, pt, KeySet(keys), registry=reg)
+        else:
+            p, u, rh = {"enc": encname}, {}, {}
+            [p, u, rh][hdr_where]["alg"] = alg
+            [p, u, rh][kid_where]["kid"] = "r2"
+            obj = (FlattenedJSONEncryption if ser == 1 else GeneralJSONEncryption)(p, pt, u or None)
+            obj.add_recipient(rh or None)
+            tok = jwe.encrypt_json(obj, KeySet(keys), registry=reg)
+    except Exception as e:  # noqa
+        return {"violated": True, "key": "c14-explicit-kid", "detail": "encryption with kid=r2 (%s header) and a key set failed: %s %s" % (["protected", "unprotected", "per-recipient"][kid_where], type(e).__name__, e)}
+    res = {}
+    for label, k in (("key set", KeySet(keys)), ("only r2", keys[1]), ("only r1", keys[0])):
+        try:
+            out = jwe.decrypt_compact(tok, k, registry=reg) if ser == 0 else jwe.decrypt_json(tok, k, registry=reg)
+            res[label] = out.plaintext == pt
+        except Exception as e:  # noqa
+            res[label] = type(e).__name__
+    bad = res["key set"] is not True or res["only r2"] is not True or res["only r1"] is True
+    return {"violated": bad, "key": "c14-explicit-kid", "detail": "alg=%s %s kid=r2 in the %s header: decryption with %r" %
+            (alg, ["compact", "flattened", "general"][ser], ["protected", "unprotected", "per-recipient"][kid_where], res)}
 
 
 def replay_shared_alg(alg_i, enc_i, curve_i, n, which):
@@ -677,6 +756,8 @@ def replay(func, call):
         return replay_single_key_mixed(*args)
     elif func == "shared_alg_recipients":
         return replay_shared_alg(*args)
+    elif func == "explicit_kid":
+        return replay_explicit_kid(*args)
     elif func == "two_recipients":
         alg_i, alg2_i, enc_i, pt, aad = args
         ser, n_rec, hdr_where = 2, 2, 2
